@@ -33,7 +33,7 @@ type caseOut struct {
 }
 
 func finishCase(c *Case, extraTags []string) caseOut {
-	o := caseOut{lines: c.lines, obs: c.obs, viols: c.viols, tags: append(extraTags, c.tags...)}
+	o := caseOut{lines: c.lines, obs: c.obs, viols: append(append([]violation{}, c.viols...), c.stepViols...), tags: append(extraTags, c.tags...)}
 	for i, l := range c.lines {
 		kind := l
 		if j := strings.IndexByte(l, ' '); j > 0 {
@@ -305,7 +305,17 @@ func main() {
 			c4, c7 = 80, 30
 		}
 		pool := trafficPool(run.Seed, c4, c7)
+		dr := hx.NewRng(run.Seed ^ 0xc02)
+		for _, o := range []caseOut{scenarioReusedSignature(0), scenarioReusedSignature(5),
+			runC02History(dr, "wrong-leader", 4, 0, 3, 1, 2, 0), runC02History(dr, "wrong-leader", 4, 2, 1, 2, 3, 0),
+			runC02History(dr, "wrong-leader", 7, 1, 5, 1, 2, 1), runC02History(dr, "bad-value", 4, 0, 3, 1, 2, 0),
+			runC02History(dr, "bad-value", 4, 3, 2, 2, 3, 0), runC02History(dr, "bad-value", 7, 1, 6, 2, 2, 0)} {
+			absorb(run, o)
+		}
 		parallelCases(run, run.N, one(func(idx int, r *hx.Rng) caseOut {
+			if r.Chance(8) {
+				return randomC02History(r)
+			}
 			var t *Traffic
 			var op spectypes.OperatorID
 			if r.Chance(25) {
@@ -320,10 +330,13 @@ func main() {
 		withCont := *mode == "c07"
 		var directed [][]caseOut
 		if withCont {
-			directed = append(directed, scenarioWedge(), scenarioLaggards(true), scenarioLaggards(false), scenarioLoneLaggard())
+			directed = append(directed, scenarioWedge(), scenarioLaggards(true), scenarioLaggards(false), scenarioLoneLaggard(),
+				scenarioPulledThenOwnTimer(), scenarioLaggardAfterOwnTimeout(), scenarioFutureRoundProposalToLaggard(),
+				scenarioTimeoutsUpToCutoff(4, 0), scenarioTimeoutsUpToCutoff(7, 3))
 		} else {
 			directed = append(directed, scenarioCompactionEquivocation(4, true), scenarioCompactionEquivocation(4, false),
-				scenarioCompactionEquivocation(7, true), scenarioCompactionEquivocation(7, false), scenarioCrossRole())
+				scenarioCompactionEquivocation(7, true), scenarioCompactionEquivocation(7, false), scenarioCrossRole(),
+				scenarioStaleRoundJustification(), scenarioForgedKnownSigner(), scenarioCommitBroadcastFault())
 		}
 		for _, os := range directed {
 			for _, o := range os {
